@@ -36,12 +36,16 @@ impl Family {
         Family { k, per_def: 1 + 2 * (1u64 << k) }
     }
     pub fn count(&self) -> u64 {
-        self.per_def.pow(self.k as u32) * self.k as u64 * 2
+        self.per_def.pow(self.k as u32) * self.k as u64 * 3
     }
     // (program text, number of tokens)
     pub fn program(&self, mut idx: u64) -> String {
-        let nested = idx % 2 == 1;
-        idx /= 2;
+        // 0: at top level; 1: nested in a called function; 2: nested, and every non-literal definition
+        // also mentions the variables bound outside the group
+        let placement = idx % 3;
+        idx /= 3;
+        let nested = placement > 0;
+        let outer = if placement == 2 { " + q" } else { "" };
         let body = (idx % self.k as u64) as usize;
         idx /= self.k as u64;
         let mut defs = vec![];
@@ -63,19 +67,19 @@ impl Family {
             }
             let text = match kind {
                 Kind::Lit => "1".to_owned(),
-                Kind::Lam => format!("(p{i} => {expr})"),
+                Kind::Lam => format!("(p{i} => {expr}{outer})"),
                 Kind::NonValue => {
                     if set == 0 {
-                        "1 + 1".to_owned()
+                        format!("1 + 1{outer}")
                     } else {
-                        expr
+                        format!("{expr}{outer}")
                     }
                 }
             };
             defs.push(format!("d{i} = {text}"));
         }
         let group = format!("{}; d{body}", defs.join("; "));
-        if nested { format!("f = (q => ({group})); f 1") } else { group }
+        if nested { format!("f = (q => r => ({group})); f 1 2") } else { group }
     }
 }
 
@@ -164,7 +168,7 @@ pub fn explore(src: &str, max_leaves: usize) -> usize {
     leaves
 }
 
-fn tree_sweep(k: usize) -> Sweep {
+fn tree_sweep(k: usize, leaf_cap: usize) -> Sweep {
     let fam = Rc::new(Family::new(k));
     let f2 = fam.clone();
     if !crate::HAS_VERIF_HOOKS {
@@ -176,7 +180,7 @@ fn tree_sweep(k: usize) -> Sweep {
         move |idx| {
             let src = fam.program(idx);
             count!("evaluations");
-            let leaves = explore(&src, 5000);
+            let leaves = explore(&src, leaf_cap);
             if leaves > 1 {
                 count!("nontrivial");
             }
@@ -198,13 +202,14 @@ fn multi_diagnostic_programs() -> Vec<String> {
         "x = a + b + c + d + e; a = 1 + 1; b = 1 + 1; c = 1 + 1; d = 1 + 1; e = 1 + 1; x".to_owned(),
         "x = y z w; y = w 1; z = y 1; w = z 1; x".to_owned(),
         "x = 1 + u + v; x".to_owned(),
+        "f = (p : int) => (q : int) => (r : int) => (s : int) => (a = b + c + p + q + r + s; b = 1 + 1; c = 2 + 2; a); f 1 2 3 4".to_owned(),
         "(x : int) => x + true + (y => y)".to_owned(),
     ];
     let fam = Family::new(3);
     let mut i = 0;
     while i < fam.count() {
         v.push(fam.program(i));
-        i += 211;
+        i += 1501;
     }
     v
 }
@@ -279,9 +284,10 @@ impl Prop for C13 {
         "C13"
     }
     fn sweeps(&self, tier: Tier) -> Vec<Sweep> {
-        let mut v = vec![tree_sweep(2), tree_sweep(3)];
+        let cap = tier.pick(300, 5000);
+        let mut v = vec![tree_sweep(2, cap), tree_sweep(3, cap)];
         if tier == Tier::Thorough {
-            v.push(tree_sweep(4));
+            v.push(tree_sweep(4, cap));
         }
         v.push(launch_sweep(tier));
         v
@@ -289,7 +295,7 @@ impl Prop for C13 {
     fn evidence(&self, tier: Tier) -> EvidenceSpec {
         EvidenceSpec {
             level: "model_checking",
-            rule: "states = executions of the real `parse` under one complete assignment of iteration orders (a leaf of the choice tree), transitions = choice points answered; the explorer replays a prefix of permutation choices through hook H1 and takes the ascending order afterwards, records the arity n! met at each point and enumerates every alternative (stateless DFS, cap 5000 leaves per program, reported if hit). Space: every group of k <= 3 (thorough: 4) definitions, each a literal, a lambda mentioning any subset of the group, or a non-value expression mentioning any subset, with each group variable as the body, at top level and nested in a called function. All leaves must be equal (verdict, diagnostics, order). Separately the real binary (hooks off) is launched 6/24 times on the examples and on multi-diagnostic programs for `check` and `run`; any byte difference between launches is a violation (repeat-run differential, not exhaustive). evaluations = programs + files; non-trivial = programs whose choice tree has more than one leaf".to_owned(),
+            rule: "states = executions of the real `parse` under one complete assignment of iteration orders (a leaf of the choice tree), transitions = choice points answered; the explorer replays a prefix of permutation choices through hook H1 and takes the ascending order afterwards, records the arity n! met at each point and enumerates every alternative (stateless DFS, cap 300 / 5000 leaves per program, the number of capped trees is reported). Space: every group of k <= 3 (thorough: 4) definitions, each a literal, a lambda mentioning any subset of the group, or a non-value expression mentioning any subset, with each group variable as the body, at top level and nested in a called function. All leaves must be equal (verdict, diagnostics, order). Separately the real binary (hooks off) is launched 6/24 times on the examples and on multi-diagnostic programs for `check` and `run`; any byte difference between launches is a violation (repeat-run differential, not exhaustive). evaluations = programs + files; non-trivial = programs whose choice tree has more than one leaf".to_owned(),
             assumptions: vec![
                 "hook H1 owns the only iteration over a hash container that reaches an output (grep of non-test code; the repeat-run differential would expose another site)".to_owned(),
                 "ordered containers pass through the hook unchanged, so a repaired tree has no choice points".to_owned(),
@@ -300,7 +306,7 @@ impl Prop for C13 {
             transitions: Some("transitions"),
             traces: Some("traces_validated"),
             exhaustive: true,
-            bounds: json!({"max_group_size": tier.pick(3, 4), "leaf_cap_per_program": 5000, "launches_per_file": tier.pick(6, 24)}),
+            bounds: json!({"max_group_size": tier.pick(3, 4), "leaf_cap_per_program": tier.pick(300, 5000), "launches_per_file": tier.pick(6, 24)}),
             minimums: vec![("states", 10_000), ("files_identical_across_launches", 20), ("multi_diagnostic_files", 5)],
         }
     }
